@@ -338,6 +338,10 @@ def _run_fast_path(ck, ob, st, s, cond, then, els):
         else:
             raise AnalysisError("websocket_mask: shortcut return for payload lengths %s (line %s) is not modelled" % (covered, C.line(s)))
     if not handled:
+        if els is None and _guard_min(cond, dl) is not None and st.role("out") is not None:
+            # `if (data_len >= W) { one word step }`: analysed like a word loop that runs at most once
+            _run_while(ck, ob, st, s, cond, C.inner(then) if C.kind(then) == "CompoundStmt" else [then], once=True)
+            return
         raise AnalysisError("websocket_mask: data-dependent branch on the analysed variables (line %s) is not modelled" % C.line(s))
 
 
@@ -384,7 +388,7 @@ def _guard_min(cond, var):
     return sat[0]
 
 
-def _run_while(ck, ob, st, s, cond, body_stmts):
+def _run_while(ck, ob, st, s, cond, body_stmts, once=False):
     dl, dp, op_ = st.role("data_len"), st.role("data"), st.role("out")
     if op_ is None or not st.allocated:
         raise AnalysisError("websocket_mask: processing loop before the output buffer exists (line %s)" % C.line(s))
@@ -444,14 +448,22 @@ def _run_while(ck, ob, st, s, cond, body_stmts):
     contiguous = written == list(range(0, Wn)) and Wn > 0
     ob("C18.stride", s, contiguous, "%s: one iteration stores a contiguous block starting at the current output position (offsets %s)" % (tag, written), "%s stores offsets %s" % (tag, written))
     ob("C18.stride", s, offsets[dp] == Wn and offsets[op_] == Wn and dld == -Wn, "%s: data and output pointers advance and data_len decreases by exactly the %d bytes stored (data += %d, out += %d, data_len %+d)" % (tag, Wn, offsets[dp], offsets[op_], dld), "%s strides data=%d out=%d len=%d stored=%d" % (tag, offsets[dp], offsets[op_], dld, Wn))
-    ob("C18.stride", s, Wn % 4 == 0 and Wn > 0, "%s: the block size %d is a multiple of 4, so the mask phase stays 0 at every loop head" % (tag, Wn), "%s block %d mod 4" % (tag, Wn))
+    if getattr(st, "phase", 0) != 0:
+        raise AnalysisError("websocket_mask: a word step after the mask phase left 0 (line %s) is not modelled" % C.line(s))
+    if once and Wn > 0 and Wn % 4 != 0:
+        st.phase = Wn % 4  # reported where it matters: a later access that assumes phase 0 (the byte tail's mask[i])
+    else:
+        ob("C18.stride", s, Wn % 4 == 0 and Wn > 0, "%s: the block size %d is a multiple of 4, so the mask phase stays 0 at every loop head" % (tag, Wn), "%s block %d mod 4" % (tag, Wn))
     ob("C18.guard", s, gmin >= Wn and gmin >= 1, "%s: the guard implies data_len >= %d while one iteration reads and writes %d bytes (no access past the buffers)" % (tag, gmin, Wn), "%s guard min %d vs block %d" % (tag, gmin, Wn))
     for e in ("little", "big"):
         want = {j: ("x", j, j % 4) for j in range(Wn)}
         bad = [(j, stores[e].get(j)) for j in range(Wn) if stores[e].get(j) != want[j]]
         ob("C18.lanes", s, not bad and Wn > 0, "%s, %s-endian layout: stored byte j is data[j] ^ mask[j mod 4] for every j < %d%s" % (tag, e, Wn, (" - first mismatch at byte %d: %r" % bad[0]) if bad else ""), "%s lanes %s: %s" % (tag, e, "ok" if not bad else "byte %d = %r" % bad[0]))
     st.sym = "p"
-    st.rem_upper = gmin - 1
+    if once:
+        st.rem_upper = None if st.rem_upper is None else max(gmin - 1, st.rem_upper - Wn)
+    else:
+        st.rem_upper = gmin - 1
 
 
 def _run_for(ck, ob, st, s):
@@ -491,6 +503,8 @@ def _run_for(ck, ob, st, s):
         plain_index = plain_index or ok_plain
         ob("C18.tail", sts[0], ok_plain or ok_mod, "tail, %s-endian: the stored byte is data[i] ^ mask[i] (or mask[i %% 4]) (got %r)" % (e, lane), "tail lane %s: %s" % (e, "ok" if (ok_plain or ok_mod) else repr(lane)))
     if plain_index:
+        ph = getattr(st, "phase", 0)
+        ob("C18.tail", s, ph == 0, "the byte tail indexes the mask from 0 (mask[i]): every step before it must have consumed a multiple of 4 bytes (a preceding step left %d byte(s) of phase)" % ph, "tail mask phase %d" % ph)
         ob("C18.tail", s, st.sym in ("exact", "p") and st.rem_upper is not None and st.rem_upper <= 4, "mask[i] is only correct with i < 4 and phase 0: the loops before the tail leave data_len <= 4 (bound: %s)" % st.rem_upper, "tail bound data_len <= %s" % st.rem_upper)
     st.tail_done = start == 0 and okc and oki
     st.rem_upper = 0
@@ -574,8 +588,17 @@ def py_rules(ck, table):
             return isinstance(e, ast.Subscript) and is_arr_of(e.value, dp) and isinstance(e.slice, ast.Name) and e.slice.id == iv
 
         def mask_mod(e):
-            if isinstance(e, ast.Subscript) and is_arr_of(e.value, mp) and isinstance(e.slice, ast.BinOp) and isinstance(e.slice.op, ast.Mod) and isinstance(e.slice.left, ast.Name) and e.slice.left.id == iv and isinstance(e.slice.right, ast.Constant):
-                return e.slice.right.value
+            """4 when the mask index expression equals i % 4 for i = 0..63 (folded: `i % 4`, `i & 3`, ...); another
+            period k when it equals i % k; None when the expression is not an index function of i alone"""
+            if isinstance(e, ast.Subscript) and is_arr_of(e.value, mp) and not isinstance(e.slice, ast.Slice) and q.names_in(e.slice) == {iv}:
+                try:
+                    vals = [q.fold(e.slice, {iv: k}) for k in range(64)]
+                except q.NotFoldable:
+                    return None
+                for per in range(1, 17):
+                    if vals == [k % per for k in range(64)]:
+                        return per
+                return -1  # a function of i, but not i mod k
             return None
 
         md = mask_mod(r) if is_data_i(l) else (mask_mod(l) if is_data_i(r) else None)
@@ -780,6 +803,7 @@ def _in(qn, edit, rel=U):
 MUTANTS = [
     ("seeded C18-adv1: empty-payload fast path before the mask length test", _c_mutant("    if (mask_len != 4)", "    if (data_len == 0)\n    {\n        return PyBytes_FromStringAndSize(NULL, 0);\n    }\n\n    if (mask_len != 4)"), "C18.mask-len"),
     ("C: short payloads (< 4 bytes) take a shortcut that skips the mask length test", _c_mutant("    if (mask_len != 4)", "    if (!data_len)\n        return PyBytes_FromStringAndSize(\"\", 0);\n    if (mask_len != 4)"), "C18.mask-len"),
+    ("seeded C18-adv4: a 16-bit step after the 32-bit loop, byte tail still indexes mask[i] from 0", _c_mutant("    for (i = 0; i < data_len; i++)", "    if (data_len >= 2)\n    {\n        ((uint16_t *)buf)[0] = ((uint16_t *)data)[0] ^ (uint16_t)uint32_mask;\n        data += 2;\n        buf += 2;\n        data_len -= 2;\n    }\n\n    for (i = 0; i < data_len; i++)"), "C18.tail"),
     ("C: 8-byte loop advances data by 4", _c_mutant("data += 8;", "data += 4;"), "C18.stride"),
     ("C: 8-byte loop runs while data_len > 0", _c_mutant("while (data_len >= 8)", "while (data_len > 0)"), "C18.guard"),
     ("C: 4-byte loop runs while data_len >= 2", _c_mutant("while (data_len >= 4)", "while (data_len >= 2)"), "C18.guard"),
